@@ -57,6 +57,8 @@ structure St where
       the terminal may be left inside a control sequence or with margins set, nothing can be demanded of the rest of
       the history -/
   dead : Bool
+  /-- the implementation died in an earlier operation of this history -/
+  crashed : Bool := false
 
 instance : Inhabited St :=
   ⟨{ drv := default, vt := VTState.init 0 0 (fun _ _ => default), live := false, locked := false,
@@ -67,6 +69,17 @@ instance : Inhabited St :=
 def fx : Fixes :=
   ⟨Gen.XTermFacts.scrollGuard, Gen.XTermFacts.eraseKeepsCount, Gen.XTermFacts.printnGuard,
    Gen.TermBuf.term_resume_resends_pen⟩
+
+/-- The drawing requests of the working tree: `XTermDrv.request`, and - when the tree contains the repair
+    `fixes/C09_scroll_one_cell.patch` (`Gen.XTermFacts.scrollCellGuard`, read from the source) - the refusal of the
+    one-line ICH/DCH path whose right margin would be column 1 (`if(right < term_cols && right < 2) return false;`). -/
+def requestT (d : Drv) (req : Request) : Bool × List UInt8 :=
+  match req with
+  | .scroll r dn rt =>
+    if Gen.XTermFacts.scrollCellGuard ∧ ¬ (dn = 0 ∧ rt = 0) ∧
+       ((d.caps.slrm ∧ r.lines = 1) ∨ r.right = d.cols) ∧ dn = 0 ∧ r.right < d.cols ∧ r.right < 2 then (false, [])
+    else request fx d req
+  | _ => request fx d req
 
 /-- Interpret the implementation's bytes on the reference terminal of this history: as `VT.run`, except that a
     terminal whose mode 69 is not recognised or permanent keeps its DECLRMM state (and, if that is "set", its
@@ -222,8 +235,9 @@ def specCheck (req : Request) (vt vt' : VTState) (ret : Int) (bytes : List UInt8
   | .scroll rect d r =>
     if ret = 0 then
       (if bytes = [] then "" else "scroll reports failure but emitted bytes", true)
-    else if rect.lines ≥ 1 ∧ rect.cols ≥ 1 ∧ 0 ≤ rect.top ∧ rect.bottom ≤ vt.lines ∧ 0 ≤ rect.left ∧ rect.right ≤ vt.cols ∧
-            -rect.lines < d ∧ d < rect.lines ∧ -rect.cols < r ∧ r < rect.cols then
+    else if rect.lines ≥ 1 ∧ rect.cols ≥ 1 ∧ 0 ≤ rect.top ∧ rect.bottom ≤ vt.lines ∧ 0 ≤ rect.left ∧ rect.right ≤ vt.cols then
+      -- any offsets: a cell whose source falls outside the rectangle is vacated (an offset as large as the rectangle
+      -- vacates all of it; in particular a one-line rectangle scrolled vertically must end up blank, or be refused)
       (firstNonEmpty [commonCheck vt vt', gridCheck vt' (Spec.scrollGrid rect d r vt)], true)
     else ("", false)
 
@@ -297,8 +311,7 @@ def specApply (req : Request) (w : VTState) (known : Bool) (ret : Int) : Option 
   | .clear => some ({ w with grid := Spec.clearGrid w }, known)
   | .scroll rect d r =>
     if ret = 0 then some (w, known)
-    else if rect.lines ≥ 1 ∧ rect.cols ≥ 1 ∧ 0 ≤ rect.top ∧ rect.bottom ≤ w.lines ∧ 0 ≤ rect.left ∧ rect.right ≤ w.cols ∧
-            -rect.lines < d ∧ d < rect.lines ∧ -rect.cols < r ∧ r < rect.cols then
+    else if rect.lines ≥ 1 ∧ rect.cols ≥ 1 ∧ 0 ≤ rect.top ∧ rect.bottom ≤ w.lines ∧ 0 ≤ rect.left ∧ rect.right ≤ w.cols then
       some ({ w with grid := Spec.scrollGrid rect d r w }, false)
     else none
 
@@ -351,14 +364,21 @@ def deferred (st : St) (vt' : VTState) (unk : Nat) (want' : VTState) (known' val
 /-- A drawing request; `viaPrintf = some s`: it is `tickit_term_printf` with formatted result `s` (the request is
     then `print s`). -/
 def doRequest (st : St) (req : Request) (viaPrintf : Option (List UInt8)) (impl : String) : St × String × String :=
-  let (ret, bytes) := request fx st.drv req
+  let (ret, bytes) := requestT st.drv req
   let (out', del) := emit st.out fun o => match viaPrintf with
     | some s => XTermOut.printf o s
     | none => XTermOut.send o bytes
   let mobs := showDelivered del s!"ret={b01 ret}"
   let st := { st with out := out' }
   match parseObs impl with
-  | none => (st, mobs, "")     -- CRASH / malformed: the comparison reports it
+  | none =>
+    -- the call did not come back with an observation (the process died in it): for a request inside the contract
+    -- that is a failure of the property as well — the request did not have its effect
+    let inContract : Bool :=
+      if st.synced ∧ st.bufN = 0 then (specCheck req st.vt st.vt 1 []).2
+      else st.valid && (specApply req st.want st.curKnown 1).isSome
+    ({ st with crashed := true }, mobs,
+      if inContract then s!"the request did not complete (implementation: {impl})" else "")
   | some (ibytes, iret) =>
     let vt' := runOn st ibytes
     let unk := st.unk + unknownSeqs ibytes st.vt
@@ -602,7 +622,7 @@ def step1 (st : St) (ts : List String) (impl : String) : St × String × String 
 
 def step (st : St) (ts : List String) (impl : String) : St × String × String :=
   let (st', mobs, verdict) := step1 st ts impl
-  (st', mobs, if st'.dead then "" else verdict)
+  (st', mobs, if st'.dead ∨ (st.crashed ∧ st'.crashed) then "" else verdict)
 
 def engine : Engine := { σ := St, init := default, step := step }
 
